@@ -29,7 +29,8 @@ CHECKS = {
                      "1.5e8 (quick) calls per run; crashes are contained and bisected to the failing tuple. Writes to stdout or stderr are captured per call (a "
                      "diagnostic on a standard stream, e.g. the complaint about an error stored over an existing one, is a violation); the parser is also given "
                      "strings with two independent causes of rejection and decimal subscripts across 1e-25..1e22; constructors are also called on user arrays in every storage "
-                     "state; the energy alphabet contains every edge as the build stores it and its two neighbouring doubles.",
+                     "state; the energy alphabet contains every edge as the build stores it and its two neighbouring doubles; the string alphabet holds unknown names of 28 "
+                     "lengths (63 .. 65536) around every plausible buffer size.",
                 note="Continuous arguments are represented by table ends, edges +-eps, specials and angle grids, not covered; NaN/Inf arguments and "
                      "allocation failure are outside the property; MAY_VANISH functions are exempt from the 'never 0' clause (listed in checks/c03.py)."),
     "C07": dict(level="exploration", engine="ENUM", ref="4/C07",
@@ -50,7 +51,7 @@ CHECKS = {
                 technique="exhaustive evaluation of the real closed-form functions on a complete (E, theta, phi) grid against mutual identities and converged quadrature",
                 text="All seven closed-form functions are evaluated on the complete grid (61/241 energies over 12 decades x 33 theta x 8..17 phi) and every identity "
                      "named in the property is checked at every grid point, and again at theta0 +- delta next to 0, pi/2, pi and their images (delta 1e-2..1e-10) against "
-                     "cancellation-free closed forms; the total is compared with a composite Gauss-Legendre quadrature of the library's "
+                     "cancellation-free closed forms, and at angles of 28 magnitudes up to 1e300 against their independently reduced images; the total is compared with a composite Gauss-Legendre quadrature of the library's "
                      "own differential form whose convergence is verified in the run.",
                 note="The continuum is represented by the grid, not covered; tolerances 1e-8 (quadrature), 1e-10..1e-12 (algebraic identities)."),
     "C05": dict(level="exploration", engine="ENUM", ref="4/C05",
@@ -98,8 +99,10 @@ CHECKS = {
                 technique="exhaustive enumeration of every constant and declaration of 7 binding interfaces against macro values produced by the C preprocessor and the lexed C prototypes",
                 text="The C side is executed (a generated program prints every numeric macro; every prototype is looked up with dlsym in the freshly built shared "
                      "object); each binding file is lexed by a construct-counting lexer that fails closed on anything it does not understand, and every published "
-                     "constant, macro family and wrapped prototype is compared (about 27 000 comparisons), plus version strings of all build/packaging files; every function the "
-                     "compiler sees declared in the headers must be exported; every IDL constant must be a member of COMMON XRAYLIB (and every member assigned).",
+                     "constant, macro family and wrapped prototype is compared (about 29 000 comparisons), plus version strings of all build/packaging files; every function the "
+                     "compiler sees declared in the headers must be exported; every IDL constant must be a member of COMMON XRAYLIB (and every member assigned); a parameter that "
+                     "carries the name of a C parameter must stand at its position; Pascal imports must bind the symbol their identifier names; Pascal wrapper bodies, Fortran call "
+                     "sites of BIND(C) interfaces and Cython def bodies must forward to their own C function with their own arguments in order.",
                 note="Non-C bindings are lexed, never compiled (no Fortran/Pascal/Cython/SWIG/IDL toolchain here); struct layouts and reshaped object wrappers are not compared."),
     "C14": dict(level="model_checking", engine="HIST", ref="4/C14",
                 technique="explicit-state BFS over operation histories of the real crystal-collection code (fork per state), to closure, against a dictionary model, repeated under ASan/UBSan",
@@ -140,7 +143,9 @@ CHECKS = {
                      "processes and history processes fill the stack below each call and fresh heap blocks with different bytes, so a result that depends on "
                      "uninitialised memory differs by construction. Order invariance: the C03 argument product of every entry point (strided) is executed as one "
                      "sequence in natural order, reversed, and once per argument with that argument varying fastest; results are compared tuple by tuple. Every crystal "
-                     "file of up to 5 (thorough 6) lines over an 8-line alphabet is read under the comma locale with locale and cwd compared after every call; the BFS itself runs under the comma locale.",
+                     "file of up to 5 (thorough 6) lines over an 8-line alphabet is read under the comma locale with locale and cwd compared after every call; the BFS itself runs under the comma locale. "
+                     "Table immutability: the complete C03 argument product of every entry point (2.9e7 calls per configuration) runs in processes of the section-renamed build with the "
+                     "digest of the writable sections and of the table object taken before and after every plan; a difference is bisected to the tuple.",
                 note="Argument values outside the alphabet are not covered; libc-internal state other than locale/cwd/stdio is not in the key."),
     "C19": dict(level="translation_validation", engine="ENUM", ref="4/C19",
                 technique="exhaustive enumeration of one argument stream through the real C library and the real Java implementation (same binary protocol), record-by-record comparison",
@@ -160,7 +165,7 @@ CHECKS = {
                      "hand-written ops every value-returning entry point is run against itself (two threads, two different succeeding / failing tuples from the C03 "
                      "product; ~900 generated ops over ~300 functions), so a static scratch variable or memo inside any function is a contested location.",
                 note="Sequential consistency (DRF-SC argument); memcpy/memset intrinsics and libc internals are not instrumented - the free-running 16-thread TSan "
-                     "pass (sampled, cross-check only) covers those; more than 3 threads only there."),
+                     "pass (sampled, cross-check only) covers those; more than 3 threads only there; threads of that pass that never finish (180 s for a 0.1 s run) are reported as a hang."),
     "C18": dict(level="exploration", engine="ENUM", ref="4/C18",
                 technique="exhaustive enumeration of every C++ wrapper instantiation over the C03 argument product through two drivers (C and C++), record-by-record comparison, leak accounting and ASan",
                 text="A translation unit generated from xraylib++.h instantiates all 148 wrapper entry points (fail-closed lexer); the same driver main() is linked once "
